@@ -331,7 +331,7 @@ IteratorDictString *StringDictionaryHASHHF::extractTable() {
   uchar *tmp = new uchar[4 * maxlength + table->getK()];
 
   for (uint i = 1; i <= elements; i++) {
-    uint remain = maxlength;
+    uint remain = maxcomplength + 4;
     uint pos = hash->getValue(i);
     ChunkScan chunk = {0, 0, textStrings + pos, remain, tmp, 0, 0, 1};
 
